@@ -34,6 +34,11 @@ RULE = ('catalogue rows: seeded sample (quick) / all 2593 (thorough) x 9 wavelen
         'model glass: Schott catalogue (n_d, V_d) with jitter; non-trivial = finite index returned; '
         'always included: rows on which every coefficient position of their formula matters (most non-zero / distinct / '
         'longest coefficient lists per formula, every formula-4 row with c6 != 0), formulas 8/9, the two-section file; '
+        'tables: independent oracle = straight line through two CONSECUTIVE FILE ROWS (own YAML/table parser, no np.interp, '
+        'no sort, no de-duplication) at points strictly inside table intervals - all intervals within two rows of a repeated '
+        'or out-of-order wavelength, a spread of the others (every interval in the thorough tier); every row with a repeated / '
+        'out-of-order wavelength or a one-row table and each table layout (n, nk, n+k, k, formula+k, formula+nk) is always '
+        'included, selected by a run-time scan of the data files; '
         'history independence: Material(...) constructed repeatedly in one process - every case-colliding catalogue name pair '
         'in both orders with repeats, the same name under different references / wavelength bounds / robust flags - each call '
         'judged against the stateless lookup model')
@@ -43,8 +48,10 @@ PARTIAL = [
     'extinction coefficient: kernel-level theorem (extinction_k_spec); which k table of a file is used is checked by '
     'correspondence only',
     'model glass reproduces (n_d, V_d): numerical check only (no theorem); fails for V_d > 90 (finding model-glass-high-abbe)',
-    'tables whose wavelengths are not strictly increasing (29 catalogue files) are outside the hypotheses of the interpolation '
-    'theorems; they are compared with the np.interp model only',
+    'tables whose wavelengths are not strictly increasing are outside the hypotheses of the interpolation theorems: tables '
+    'that repeat a wavelength (16 rows) are checked against interpolation between consecutive file rows strictly inside every '
+    'interval (the repeated node itself is skipped) and against the np.interp model; tables with rows out of order (15 rows) '
+    'are the finding table-rows-out-of-order',
 ]
 
 META = re.compile(r'[\\.^$*+?{}\[\]|()]')
@@ -509,7 +516,7 @@ def row_samples(ctx, r, secs, unusual):
     ws = base + prio + rest
     mono = all(nondecreasing([q[0] for q in s[1]]) for s in secs if s[0] in ('n', 'k', 'nk'))
     if mono:
-        return ws, list(range(len(base) + min(len(prio) + len(rest), COQ_EXTRA_CAP)))
+        return ws, list(range(len(base) + min(len(prio) + len(rest), COQ_EXTRA_CAP if unusual else 30)))
     # a table with rows out of order: the Coq model (file order, left-to-right search) is compared only where the
     # neighbouring rows are the same whether the table is read as listed or in increasing order
     cols = [[q[0] for q in s[1]] for s in secs if s[0] in ('n', 'k', 'nk')]
